@@ -1227,6 +1227,8 @@ func Run(r *common.Run) error {
 	}
 	c.concurrent()
 	c.decoded()
+	c.octets()
+	c.history()
 
 	// corpus: the two worked examples of XEP-0115 (§5.2, §5.3) with their published
 	// verification strings, then the minimal witnesses of past failures
